@@ -1316,6 +1316,9 @@ class Interp:
         return [(st, bool(t))]
 
 
+_JOIN_COUNTER = [0]
+
+
 def join_vals(vals):
     """Least upper bound of definite values for storage (may yield UnionV)."""
     vals = [v for v in vals if v is not None]
@@ -1327,8 +1330,13 @@ def join_vals(vals):
     alts = []
     for k, vs in groups.items():
         if k == "int":
-            sym = vs[0].sym if all(x.sym == vs[0].sym for x in vs) else ("join",)
-            alts.append(IntV(min(x.lo for x in vs), max(x.hi for x in vs), sym))
+            lo, hi = min(x.lo for x in vs), max(x.hi for x in vs)
+            if all(x.sym == vs[0].sym for x in vs):
+                sym = vs[0].sym
+            else:
+                _JOIN_COUNTER[0] += 1
+                sym = ("unk", lo, hi, _JOIN_COUNTER[0])
+            alts.append(IntV(lo, hi, sym))
         elif k == "none":
             alts.append(NONE)
         elif k == "str":
